@@ -130,21 +130,63 @@ type sharedSchema struct {
 	ref    string // dump taken right after validation
 }
 
-func newSchema(name, text string) (*sharedSchema, error) {
-	ss := &sharedSchema{Name: name, cap: &capture{}, Text: text}
-	ext := omniparser.Extension{
+// The application's extension list: ONE slice, built by append (spare capacity), shared by every
+// goroutine that creates schemas.  Ordinary schemas are created with sharedExts[:1]... (the
+// capturing extension only), schemas named x2-... with the whole list (the second extension
+// brings its own custom_func).  NewSchema must not write to the caller's slice.
+var captures sync.Map // unique schema name -> *capture
+
+func capHandler(ctx *schemahandler.CreateCtx) (schemahandler.SchemaHandler, error) {
+	var cp *capture
+	if c, ok := captures.Load(ctx.Name); ok {
+		cp = c.(*capture)
+	} else {
+		cp = &capture{}
+	}
+	var wrapped []fileformat.FileFormat
+	for _, f := range builtinFormats(ctx.Name) {
+		wrapped = append(wrapped, &capFormat{inner: f, cap: cp})
+	}
+	c2 := *ctx
+	c2.CreateParams = &omniv21.CreateParams{CustomFileFormats: wrapped}
+	return omniv21.CreateSchemaHandler(&c2)
+}
+
+var sharedExts = func() []omniparser.Extension {
+	l := make([]omniparser.Extension, 0, 4)
+	l = append(l, omniparser.Extension{
 		CreateSchemaHandler: func(ctx *schemahandler.CreateCtx) (schemahandler.SchemaHandler, error) {
-			var wrapped []fileformat.FileFormat
-			for _, f := range builtinFormats(ctx.Name) {
-				wrapped = append(wrapped, &capFormat{inner: f, cap: ss.cap})
+			if strings.HasPrefix(ctx.Name, "x2-") {
+				return nil, errs.ErrSchemaNotSupported
 			}
-			c2 := *ctx
-			c2.CreateParams = &omniv21.CreateParams{CustomFileFormats: wrapped}
-			return omniv21.CreateSchemaHandler(&c2)
+			return capHandler(ctx)
 		},
 		CustomFuncs: customfuncs.Merge(customfuncs.CommonCustomFuncs, v21.OmniV21CustomFuncs),
+	})
+	l = append(l, omniparser.Extension{
+		CreateSchemaHandler: func(ctx *schemahandler.CreateCtx) (schemahandler.SchemaHandler, error) {
+			if !strings.HasPrefix(ctx.Name, "x2-") {
+				return nil, errs.ErrSchemaNotSupported
+			}
+			return capHandler(ctx)
+		},
+		CustomFuncs: customfuncs.Merge(customfuncs.CommonCustomFuncs, v21.OmniV21CustomFuncs, customfuncs.CustomFuncs{
+			"verif_tag": func(_ *transformctx.Ctx, s string) (string, error) { return "[" + s + "]", nil },
+		}),
+	})
+	return l
+}()
+
+func newSchema(name, text string) (*sharedSchema, error) {
+	ss := &sharedSchema{Name: name, cap: &capture{}, Text: text}
+	uname := nextName(name)
+	captures.Store(uname, ss.cap)
+	defer captures.Delete(uname)
+	exts := sharedExts[:1]
+	if strings.HasPrefix(name, "x2-") {
+		exts = sharedExts
 	}
-	s, err := omniparser.NewSchema(name, strings.NewReader(text), ext)
+	s, err := omniparser.NewSchema(uname, strings.NewReader(text), exts...)
 	if err != nil {
 		return nil, err
 	}
@@ -302,6 +344,21 @@ const usersSchema = `{"parser_settings": {"version": "omni.2.1", "file_format_ty
    "u1": {"custom_func": {"name": "javascript", "args": [{"const": "JSON.stringify({a: Math.max(v, 3), s: s})"}, {"const": "v"}, {"xpath": "v", "type": "int"}, {"const": "s"}, {"xpath": "s"}]}},
    "u2": {"custom_func": {"name": "javascript", "args": [{"const": "Math.floor(w) + ':' + JSON.parse(j).x + ':' + parseInt(v, 10) + ':' + Object.keys({q: 1}).length"}, {"const": "w"}, {"xpath": "w", "type": "float"}, {"const": "j"}, {"const": "{\"x\":1}"}, {"const": "v"}, {"xpath": "v"}]}},
    "u3": {"custom_func": {"name": "javascript_with_context", "args": [{"const": "JSON.parse(_node).v + ':' + Math.abs(-1)"}]}}
+ }}}}`
+
+// handled by the SECOND extension of the shared list (its own custom_func)
+const x2Schema = `{"parser_settings": {"version": "omni.2.1", "file_format_type": "json"},
+ "transform_declarations": {"FINAL_OUTPUT": {"xpath": "/*", "object": {
+   "tag": {"custom_func": {"name": "verif_tag", "args": [{"xpath": "s"}]}},
+   "v": {"xpath": "v", "type": "int"}}}}}`
+
+// a script that throws at run time for some records, without ignore_error: the record fails and
+// the error TEXT (which carries goja's position information) is part of the transcript
+const jsThrowSchema = `{"parser_settings": {"version": "omni.2.1", "file_format_type": "json"},
+ "transform_declarations": {"FINAL_OUTPUT": {"xpath": "/*", "object": {
+   "dbl": {"custom_func": {"name": "javascript", "args": [{"const": "v * 2"}, {"const": "v"}, {"xpath": "v", "type": "int"}]}},
+   "boom": {"custom_func": {"name": "javascript", "args": [{"const": "(v % 3 === 0) ? nowhere.nope.nope : s.toUpperCase()"}, {"const": "v"}, {"xpath": "v", "type": "int"}, {"const": "s"}, {"xpath": "s"}]}},
+   "stack": {"custom_func": {"name": "javascript", "args": [{"const": "(v % 5 === 0) ? (function(){ throw new Error('five ' + v) })() : 'ok'"}, {"const": "v"}, {"xpath": "v", "type": "int"}]}}
  }}}}`
 
 // javascript_with_context SEVERAL TIMES on the SAME node
@@ -513,7 +570,7 @@ func nextName(prefix string) string {
 	uniqMu.Lock()
 	defer uniqMu.Unlock()
 	uniq++
-	return fmt.Sprintf("%s-%d", prefix, uniq)
+	return fmt.Sprintf("%s-%06d", prefix, uniq)
 }
 
 // runJob drives one Transform to its terminal result; the transcript has every Read result
@@ -576,28 +633,14 @@ type workload struct {
 	gen     []func(r *vh.Rng, n int) []byte
 }
 
-func buildWorkload(sum *vh.Summary) *workload { return buildWorkloadOnly(sum, nil) }
+type spec struct {
+	name, text string
+	gen        func(r *vh.Rng, n int) []byte
+}
 
-// buildWorkloadOnly validates only the schemas named in need (nil: all); the others keep their
-// slot (indices are stable) but have no Schema object
-func buildWorkloadOnly(sum *vh.Summary, need map[string]bool) *workload {
-	w := &workload{}
-	add := func(name, text string, gen func(r *vh.Rng, n int) []byte) {
-		if need != nil && !need[name] {
-			w.schemas = append(w.schemas, &sharedSchema{Name: name})
-			w.gen = append(w.gen, gen)
-			return
-		}
-		ss, err := newSchema(name, text)
-		if err != nil {
-			if sum != nil {
-				sum.Fail("workload schema "+name+" rejected by NewSchema", map[string]string{"schema": name}, err.Error())
-			}
-			return
-		}
-		w.schemas = append(w.schemas, ss)
-		w.gen = append(w.gen, gen)
-	}
+func specs() []spec {
+	var out []spec
+	add := func(name, text string, gen func(r *vh.Rng, n int) []byte) { out = append(out, spec{name, text, gen}) }
 	for _, f := range vh.Fixtures() {
 		add("fx-"+f.Format, f.Schema, f.Gen)
 	}
@@ -615,7 +658,77 @@ func buildWorkloadOnly(sum *vh.Summary, need map[string]bool) *workload {
 	add("csv2-nested", csv2NestedSchema, genCSV2Nested)
 	add("shadow", shadowSchema, genJSInput)
 	add("users", usersSchema, genJSInput)
+	add("x2-tag", x2Schema, genJSInput)
+	add("jsthrow", jsThrowSchema, genJSInput)
+	return out
+}
+
+func buildWorkload(sum *vh.Summary) *workload { return buildWorkloadOnly(sum, nil) }
+
+// buildWorkloadOnly validates only the schemas named in need (nil: all); the others keep their
+// slot (indices are stable) but have no Schema object
+func buildWorkloadOnly(sum *vh.Summary, need map[string]bool) *workload {
+	w := &workload{}
+	for _, sp := range specs() {
+		if need != nil && !need[sp.name] {
+			w.schemas = append(w.schemas, &sharedSchema{Name: sp.name})
+			w.gen = append(w.gen, sp.gen)
+			continue
+		}
+		ss, err := newSchema(sp.name, sp.text)
+		if err != nil {
+			if sum != nil {
+				sum.Fail("workload schema "+sp.name+" rejected by NewSchema", map[string]string{"schema": sp.name}, err.Error())
+			}
+			continue
+		}
+		w.schemas = append(w.schemas, ss)
+		w.gen = append(w.gen, sp.gen)
+	}
 	return w
+}
+
+// coldStart: the very first thing the process does with omniparser - 16 goroutines create schemas
+// of all formats at the same time (each in its own order), before anything has been warmed up
+// sequentially.  State that NewSchema initialises lazily and process-wide is initialised here.
+func coldStart() (fails [][2]string) {
+	sp := specs()
+	var mu sync.Mutex
+	var wg sync.WaitGroup
+	start := make(chan struct{})
+	dumps := make([]map[string]string, 16)
+	for g := 0; g < 16; g++ {
+		wg.Add(1)
+		go func(g int) {
+			defer wg.Done()
+			dumps[g] = map[string]string{}
+			<-start
+			for k := range sp {
+				x := sp[(k+g*3)%len(sp)]
+				ss, err := newSchema(x.name, x.text)
+				if err != nil {
+					mu.Lock()
+					fails = append(fails, [2]string{"cold start: NewSchema of workload schema " + x.name + " failed while other goroutines create schemas", err.Error()})
+					mu.Unlock()
+					continue
+				}
+				dumps[g][x.name] = ss.ref
+			}
+		}(g)
+	}
+	close(start)
+	wg.Wait()
+	for g := 1; g < 16; g++ {
+		for n, d := range dumps[g] {
+			if d0, ok := dumps[0][n]; ok && d0 != d {
+				fails = append(fails, [2]string{"cold start: schema " + n + " validated concurrently by two goroutines has different declarations", ""})
+			}
+		}
+	}
+	if len(fails) > 8 {
+		fails = fails[:8]
+	}
+	return
 }
 
 // one concurrent mix; returns failures (what, detail) and the per-goroutine record-node ID sequences
@@ -644,7 +757,7 @@ func genContention(r *vh.Rng, w *workload) (desc mixDesc) {
 	for i, s := range w.schemas {
 		desc.Schemas = append(desc.Schemas, s.Name)
 		switch s.Name {
-		case "ctx", "ctx3", "shadow", "users", "js":
+		case "ctx", "ctx3", "shadow", "users", "js", "jsthrow":
 			pick = append(pick, i)
 		}
 	}
@@ -800,6 +913,20 @@ func genMix(r *vh.Rng, w *workload) (desc mixDesc) {
 	return
 }
 
+func applyJSCache(mode string) {
+	switch mode {
+	case "disabled":
+		v21.VerifSetDisableCaching(true)
+		v21.VerifResetCaches(0, 0)
+	case "capacity-one":
+		v21.VerifSetDisableCaching(false)
+		v21.VerifResetCaches(1, 1)
+	default:
+		v21.VerifSetDisableCaching(false)
+		v21.VerifResetCaches(0, 0)
+	}
+}
+
 func execMix(desc mixDesc, w0 *workload) (fails [][2]string, seqs [][]int64, c0, c1 int64) {
 	// Fresh Schema objects for the concurrent phase: their FIRST use is concurrent, so state that
 	// is written lazily on first use is exercised (and raced) as well; the alone runs use another
@@ -829,17 +956,7 @@ func execMix(desc mixDesc, w0 *workload) (fails [][2]string, seqs [][]int64, c0,
 	runtime.GOMAXPROCS(desc.Procs)
 	idr.VerifSetNodeCaching(desc.NodePool)
 	idr.VerifResetNodePool()
-	switch desc.JSCache {
-	case "disabled":
-		v21.VerifSetDisableCaching(true)
-		v21.VerifResetCaches(0, 0)
-	case "capacity-one":
-		v21.VerifSetDisableCaching(false)
-		v21.VerifResetCaches(1, 1)
-	default:
-		v21.VerifSetDisableCaching(false)
-		v21.VerifResetCaches(0, 0)
-	}
+	applyJSCache(desc.JSCache)
 	expected := make([][][]string, desc.Goroutines)
 	// ---- concurrently ----
 	idr.VerifResetNodePool()
@@ -893,7 +1010,8 @@ func execMix(desc mixDesc, w0 *workload) (fails [][2]string, seqs [][]int64, c0,
 	// ---- each transform alone (fresh Schema objects, nothing else running) ----
 	for g := range desc.Jobs {
 		for _, j := range desc.Jobs[g] {
-			idr.VerifResetNodePool() // alone: not even another transform's released nodes
+			idr.VerifResetNodePool()   // alone: not even another transform's released nodes
+			applyJSCache(desc.JSCache) // ... nor a program somebody else compiled
 			tr, _, _ := runJob(wAlone.schemas[j.Schema], j.Input, j.Ext)
 			expected[g] = append(expected[g], tr)
 		}
@@ -1015,7 +1133,9 @@ func main() {
 	o := vh.ParseOpts()
 	r := vh.NewRng(o.Seed)
 	if *raceChild {
+		cold := coldStart()
 		w := buildWorkload(nil)
+		defer fmt.Printf("race child: cold start failures: %d\n", len(cold))
 		n := o.Count(24, 800)
 		bad := 0
 		for i := 0; i < n; i++ {
@@ -1073,6 +1193,13 @@ func main() {
 	sum := vh.NewSummary("C14", o,
 		"concurrent mixes: N in 2..16 goroutines, each driving 1..3 Transforms over shared Schema objects (seven formats, javascript, xpath with regexps/dynamic xpaths/templates), GOMAXPROCS in {1,2,16}, node pool on/off, JS caches default/capacity one/off; non-trivial = at least two goroutines share one Schema object (always); distinct by (config, jobs)")
 	cw := vh.NewCaseWriter(o, "C14", "Model.Js Model.Conc", "ccase", "check_case")
+	for _, f := range coldStart() { // before ANY sequential use of omniparser in this process
+		sum.Fail(f[0], map[string]interface{}{"kind": "coldstart", "what": f[0]}, f[1])
+	}
+	sum.Hist("coldstart:16-goroutines-all-schemas")
+	if len(sum.Failures) > 0 {
+		sum.Write(o)
+	}
 	w := buildWorkload(sum)
 	curOpts = o
 	if o.Replay != "" {
